@@ -1911,9 +1911,11 @@ func ruleR14_8(r *Run) {
 	r.check(okUnlock, "downres.Mutation.Execute:unlocks-on-every-exit", "the mutation's lock is released on every exit", "Execute can return with the mutation's lock held (error path): a later BlockMutated or Execute on it blocks for ever", w.fpos(ex))
 	if ab := w.method("datatype/common/downres", "Mutation", "Abort"); ab != nil {
 		has := false
-		for _, c := range calls(ab) {
-			if isStop(c) {
-				has = true
+		for _, g := range withHelpers(ab) {
+			for _, c := range calls(g) {
+				if isStop(c) {
+					has = true
+				}
 			}
 		}
 		r.check(has, "downres.Mutation.Abort:clears-updating-marks", "Abort calls StopScaleUpdate", "Abort no longer clears the updating marks", w.fpos(ab))
